@@ -49,6 +49,19 @@ def make_big_case(idx, seed, logics=("QF_UF", "QF_UFLIA", "QF_UFLRA", "QF_LRA", 
     return {"idx": f"big{idx}", "logic": logic, "options": opts, "kind": "big-single", "script": script}
 
 
+def make_boolarg_case(idx, seed, logics=("QF_UF", "QF_UFLRA", "QF_UF", "QF_UFLIA")):
+    """uninterpreted functions and predicates with Boolean arguments (the E-graph's true/false classes take part in
+    congruence explanations)"""
+    rng = random.Random(f"engine-boolarg-{seed}-{idx}")
+    logic = logics[idx % len(logics)]
+    p = gen.Problem(logic, rng, nbool=3, nnum=3)
+    p.pb = 0.4
+    asserts = [p.fla(rng.randint(1, 3)) for _ in range(rng.randint(6, 14))]
+    opts = [] if idx % 4 else [":random-seed %d" % rng.randint(1, 1000)]
+    script = "\n".join([f"(set-option {o})" for o in opts] + [p.set_logic()] + p.decls + [f"(assert {gen.smt(a)})" for a in asserts] + ["(check-sat)"]) + "\n"
+    return {"idx": f"ba{idx}", "logic": logic, "options": opts, "kind": "boolarg-single", "script": script}
+
+
 def make_steered_case(idx, seed, options=()):
     """propositional push/pop history steered by a brute-force oracle; carries the exact expected answers"""
     rng = random.Random(f"engine-steered-{seed}-{idx}")
@@ -109,9 +122,9 @@ def run_case(args):
 
 
 def run_corpus(n, seed, logics=LOGICS_KERNEL, vectors=OPTION_VECTORS, certify=True, timeout=20, big=False,
-               hist_ratio=0.35, flavour="hooks"):
+               hist_ratio=0.35, flavour="hooks", extra_cases=()):
     binary = common.opensmt_bin(flavour)
-    cases = [make_case(i, seed, logics, vectors, hist_ratio, big) for i in range(n)]
+    cases = [make_case(i, seed, logics, vectors, hist_ratio, big) for i in range(n)] + list(extra_cases)
     with mp.Pool(min(common.JOBS, 14)) as pool:
         results = pool.map(run_case, [(c, binary, certify, timeout) for c in cases], chunksize=4)
     return cases, results
